@@ -113,6 +113,8 @@ class SubPackets(collections_abc.MutableMapping, Field):
         # the hashed area exactly as received, and what it re-serialised to right after parsing
         self._hashed_raw = None
         self._hashed_parsed = None
+        self._unhashed_raw = None
+        self._unhashed_parsed = None
 
     def __bytearray__(self):
         _bytes = bytearray()
@@ -136,6 +138,14 @@ class SubPackets(collections_abc.MutableMapping, Field):
         return _bytes
 
     def __unhashbytearray__(self):
+        _bytes = self._serialize_unhashed()
+        # like the hashed area: a received unhashed area is re-exported as received while its subpackets are unchanged,
+        # so that the packet keeps the length its header announces
+        if self._unhashed_raw is not None and _bytes == self._unhashed_parsed:
+            return bytearray(self._unhashed_raw)
+        return _bytes
+
+    def _serialize_unhashed(self):
         _bytes = bytearray()
         _bytes += self.int_to_bytes(sum(len(sp) for sp in self._unhashed_sp.values()), 2)
         for uhsp in self._unhashed_sp.values():
@@ -193,6 +203,8 @@ class SubPackets(collections_abc.MutableMapping, Field):
         sp._unhashed_sp = self._unhashed_sp.copy()
         sp._hashed_raw = copy.copy(self._hashed_raw)
         sp._hashed_parsed = copy.copy(self._hashed_parsed)
+        sp._unhashed_raw = copy.copy(self._unhashed_raw)
+        sp._unhashed_parsed = copy.copy(self._unhashed_parsed)
 
         return sp
 
@@ -233,12 +245,17 @@ class SubPackets(collections_abc.MutableMapping, Field):
         self._hashed_parsed = self._serialize_hashed()
 
         uhl = self.bytes_to_int(packet[:2])
+        uraw = bytearray(packet[:2 + uhl])
         del packet[:2]
 
         plen = len(packet)
         while plen - len(packet) < uhl:
             sp = SignatureSP(packet)
             self[sp.__class__.__name__] = sp
+
+        if plen - len(packet) == uhl and len(uraw) == 2 + uhl:
+            self._unhashed_raw = uraw
+            self._unhashed_parsed = self._serialize_unhashed()
 
 
 class UserAttributeSubPackets(SubPackets):
